@@ -21,7 +21,7 @@ BUDGET = {'quick': 300, 'thorough': 2400}
 DTS = [0.3j, -0.7j, 0.2, 0.1 + 0.2j]
 
 
-def _cases(N):
+def _cases(N, NU):
     for n in range(1, N + 1):
         for kind in kc.MATRIX_KINDS_H + kc.MATRIX_KINDS_G:
             ks = range(1, n) if kind.startswith('block_invariant') else (range(1, n + 1) if kind == 'nilpotent_chain' else [0])
@@ -32,11 +32,31 @@ def _cases(N):
                             continue
                         for m in list(range(1, n + 3)) + [2 * n + 1, 3 * n + 2]:
                             yield [n, m, kind, k, sk, how]
+                            if how == 'fresh' and n <= NU and m <= n + 1:
+                                for units in list(kc.UNITS)[1:]:
+                                    yield [n, m, kind, k, sk, how, units]
 
 
 def run_case(case, ctx):
-    n, m, kind, k, sk, how = case
+    n, m, kind, k, sk, how = case[:6]
+    units = case[6] if len(case) > 6 else 'unit'
     A, v, kd = kc.build(ctx.rng(0), n, kind, sk, k)
+    # units: the map times sa (and the time argument divided by it), the start vector times sv; judged after undoing the scaling
+    sa, sv = kc.UNITS[units]
+    v = v * sv
+    ctx.cls('units:' + units)
+    n0 = len(ctx.fails)
+    known = kc.below_threshold(A * sa, v, m, kd)
+    if known:
+        ctx.cls('genuine_offdiagonal_below_absolute_threshold')
+    try:
+        _judge(ctx, n, m, kind, how, A, v, kd, sa)
+    finally:
+        if known:
+            kc.add_class(ctx, n0, kc.KNOWN_CLASS)
+
+
+def _judge(ctx, n, m, kind, how, A, v, kd, sa):
     herm = kind in kc.MATRIX_KINDS_H
     ctx.nontrivial = n >= 2
     ctx.cls('map:' + how)
@@ -51,8 +71,9 @@ def run_case(case, ctx):
             ov = np.abs(U.conj().T @ v) / nv
             reach = lam[ov > 1e-8]
             for numeig in range(1, min(m, kd) + 1):
-                f = kc.present(A, kind, how)
+                f = kc.present(A * sa, kind, how)
                 w, ur = eigh_krylov(f, v.copy(), m, numeig)
+                w = np.asarray(w) / sa
                 ctx.calls += 1
                 ctx.obs(w)
                 if not ctx.check(len(w) == numeig and ur.shape == (n, numeig), 'eig_output_sizes', f'{np.shape(w)} {np.shape(ur)}'):
@@ -70,29 +91,30 @@ def run_case(case, ctx):
         for dt in DTS:
             ref = expm(dt * A) @ v
             for flag in ((True, False) if herm else (False,)):
-                f = kc.present(A, kind, how)
+                f = kc.present(A * sa, kind, how)
                 vin = v.copy()
-                r = expm_krylov(f, vin, dt, m, hermitian=flag)
+                r = expm_krylov(f, vin, dt / sa, m, hermitian=flag)
                 ctx.calls += 1
                 ctx.obs(r)
                 ctx.check(np.array_equal(vin, v), 'input_vector_unchanged')
                 if not ctx.check(np.shape(r) == (n,), 'expm_output_shape', np.shape(r)):
                     return
                 if flag and dt.real == 0:
-                    ctx.check(abs(np.linalg.norm(r) - nv) <= 1e-10 * (1 + nv), 'hermitian_imaginary_time_preserves_norm',
+                    ctx.check(abs(np.linalg.norm(r) - nv) <= 2e-10 * nv, 'hermitian_imaginary_time_preserves_norm',
                               f'{np.linalg.norm(r)} vs {nv}')
                 if m >= kd:
-                    ctx.close(r, ref, f'expm_exact_at_exhaustion[hermitian={flag}]', tol=1e-9)
+                    ctx.close(r / nv, ref / nv, f'expm_exact_at_exhaustion[hermitian={flag}]', tol=1e-9)
             if ctx.fails:
                 return
 
 
 def sig(case):
-    return f'{case[2]}:{case[5]}'
+    return f'{case[2]}:{case[5]}' + (':' + case[6] if len(case) > 6 else '')
 
 
 def spaces(tier, seed):
     N = 10 if tier == "quick" else 12
-    return [Space('krylov_approximations', core.chunked(_cases(N), 100), run_case=run_case, sig=sig,
-                  bounds={'n<=': N, 'm': '1..n+2, 2n+1, 3n+2', 'dt': [str(x) for x in DTS], 'matrix_kinds': kc.MATRIX_KINDS_H + kc.MATRIX_KINDS_G,
+    NU = 6 if tier == "quick" else 8
+    return [Space('krylov_approximations', core.chunked(_cases(N, NU), 100), run_case=run_case, sig=sig,
+                  bounds={'n<=': N, 'units': f'{list(kc.UNITS)} for n <= {NU}, m <= n+1 (fresh presentation)', 'm': '1..n+2, 2n+1, 3n+2', 'dt': [str(x) for x in DTS], 'matrix_kinds': kc.MATRIX_KINDS_H + kc.MATRIX_KINDS_G,
                           'presentations': kc.PRESENTATIONS})]
